@@ -176,15 +176,17 @@ func (c *conn) sread() (f *Frag, err error) {
 		return f, nil
 	}
 
+	// the request has been answered already (timeout, error of a sibling
+	// fragment): whatever arrives for it now, a redirect included, is dropped
+	if f.Done {
+		logging.Warnf("[%dm|%df][%dc|%ds] frag already done, req: %s, res: %s", f.MsgId(), f.Id, f.OwnerFd(), c.fd, f.ReqString(), f.RspBodyString())
+		return nil, codec.Continue
+	}
+
 	switch f.Type {
 	case codec.RspMoved, codec.RspAsk:
 		logging.Warnf("[%dm|%df][%dc|%ds] got res: %s", f.MsgId(), f.Id, f.OwnerFd(), c.fd, f.RspBodyString())
 		return f, codec.MovedOrAsk
-	}
-
-	if f.Done {
-		logging.Warnf("[%dm|%df][%dc|%ds] frag already done, req: %s, res: %s", f.MsgId(), f.Id, f.OwnerFd(), c.fd, f.ReqString(), f.RspBodyString())
-		return nil, codec.Continue
 	}
 
 	f.slowLogCheck(c)
